@@ -915,7 +915,7 @@ func genScen(w *world, sc *scriptT, nsteps int) {
 		k++
 		d := fmt.Sprintf("s%d", k)
 		add("fs", "mkdir", d)
-		switch w.rng.Intn(14) {
+		switch w.rng.Intn(16) {
 		case 0: // a listed path comes to name a file that is already watched under another name (old inode kept alive or not)
 			x, y := d+"/x", d+"/y"
 			add("fs", "create", x)
@@ -1101,6 +1101,36 @@ func genScen(w *world, sc *scriptT, nsteps int) {
 			add("fs", "write", d+"/par2/f")
 			add("proc", "A")
 			add("remove", hx("$R/"+f))
+		case 13: // a watch whose subscription lacks Remove (no IN_DELETE_SELF): IN_IGNORED is all the library hears when it goes
+			f := d + "/nf"
+			if w.rng.Intn(3) == 0 {
+				add("fs", "mkdir", f)
+			} else {
+				add("fs", "create", f)
+			}
+			ops := []string{"2", "18", "3", "16", "10", "26"}[w.rng.Intn(6)] // subsets of Create|Write|Rename|Chmod, never Remove (4)
+			sp := w.spell2(f)
+			add("add", hx(sp), ops, "0")
+			w.maybeProc(sc)
+			add("fs", "rmrf", f)
+			add("proc", "A")
+			add("list")
+			add("remove", hx(sp))
+			add("list")
+		case 14: // the working directory itself, watched as ".", is deleted: the last thing that happens in this history
+			if len(sc.steps) < 8 {
+				continue
+			}
+			rootSp := []string{".", "./", "./.", "s1/.."}[w.rng.Intn(4)]
+			add("add", hx(rootSp), "31", "0")
+			w.maybeProc(sc)
+			add("fs", "rmrf", ".")
+			add("proc", "A")
+			add("fs", "leavecwd", ".")
+			add("proc", "A")
+			add("list")
+			add("remove", hx(rootSp))
+			return
 		case 12: // records that produce no event (a delete the parent reports, IN_IGNORED) followed by real events in ONE read
 			f, g := d+"/f", d+"/g"
 			add("fs", "create", f)
